@@ -258,6 +258,13 @@ def run(rep, tier, seed, replay):
             for st in ("min", "full"):
                 n += 1
                 cases.append({"id": "v%d" % n, "tree": t, "style": st, "text": "vd__v = " + render(t, st, rng), "run": True, "dummy": VOID})
+        # an operator defined for (number, array) only: the operands reach it in the order of the reading (the other order has no value)
+        TYPED = DUMMY + [{"cls": "bt", "n": "vbt", "prec": 4}]
+        BT = lambda l, r: {"k": "bin", "op": "vbt", "lv": 4, "l": l, "r": r}
+        for t in (BT(one, A(two)), BT(A(two), one), BT(one, A(one, two, one)), BT(A(), two)):
+            for st in ("min", "full"):
+                n += 1
+                cases.append({"id": "v%d" % n, "tree": t, "style": st, "text": "vd__v = " + render(t, st, rng), "run": True, "dummy": TYPED})
         # registry
         regev = vlib.run_driver("registry", [{"id": "reg"}], wdir, kind="rel", timeout_s=60, jobs=1, tag="reg")
         ops = [e for e in regev if e["e"] == "Op"]
